@@ -428,16 +428,20 @@ def shard_cli(cases):
 def cli_cases():
     from mc.checks import c15
     out = []
+    # (transformations with an out-of-plane part: the projection comes last)
+    tfs = [c15.TRANSF[0], ("left", False, False, "se3", "npy"),
+           ("right", False, False, "sim3", "mat")]
     for plane in PLANES:
         for align in ("none", "sync", "a", "origin"):
             for merge in (False, True):
                 for nfiles in (1, 2):
-                    out.append({"nfiles": nfiles, "downsample": None,
-                                "motion_filter": None, "merge": merge,
-                                "t_offset": 0.0, "align": align,
-                                "n_to_align": -1,
-                                "transform": c15.TRANSF[0], "project": plane,
-                                "export": "tum", "t_max_diff": 0.01})
+                    for tf in tfs:
+                        out.append({"nfiles": nfiles, "downsample": None,
+                                    "motion_filter": None, "merge": merge,
+                                    "t_offset": 0.0, "align": align,
+                                    "n_to_align": -1, "transform": tf,
+                                    "project": plane, "export": "tum",
+                                    "t_max_diff": 0.01})
     return out
 
 
